@@ -79,6 +79,9 @@ EXC_PARENTS: Dict[str, str] = {
     "ParserError": "ValueError",
     "InvalidTimezone": "ValueError",
     "JSONDecodeError": "ValueError",
+    # a host function's contract is "ValueError / TypeError": it may raise any subclass of them
+    "HostValueError": "ValueError",
+    "HostTypeError": "TypeError",
     "ArgumentTypeError": "Exception",
     "LarkError": "Exception",
     "UnexpectedInput": "LarkError",
